@@ -240,6 +240,7 @@ func fieldStoresExact(p *an.Prog, field string) string {
 	n := 0
 	for _, fn := range p.RepoFns {
 		alwaysFails := len(an.Returns(fn)) > 0 && len(flow.OkReturns(fn)) == 0 && an.ErrIndex(fn) >= 0
+		var okBlocks map[*ssa.BasicBlock]bool
 		for _, b := range fn.Blocks {
 			for _, in := range b.Instrs {
 				st, ok := in.(*ssa.Store)
@@ -256,6 +257,16 @@ func fieldStoresExact(p *an.Prog, field string) string {
 				n++
 				if alwaysFails {
 					continue // the value only ever accompanies an error
+				}
+				// the same, store by store: a purely local struct written on a path that can only
+				// end in an error return
+				if a, isLocal := fa.X.(*ssa.Alloc); isLocal && an.ErrIndex(fn) >= 0 && an.LocalOnlyAlloc(a) {
+					if okBlocks == nil {
+						okBlocks = flow.BlocksReachingOK(fn)
+					}
+					if !okBlocks[b] {
+						continue
+					}
 				}
 				v := st.Val
 				for {
